@@ -479,6 +479,51 @@ func genC13(g *gctx) {
 	g.emit("close")
 }
 
+// txTimeoutSteps: announcements, deliveries and polls around the tx request timeout (init txto=40):
+// the same never-delivered txid announced twice and three times with and without the timeout
+// elapsing in between, inv after delivery, a tx delivered twice, the GetTxRequests poll.
+func (g *gctx) txTimeoutSteps(n int) {
+	r := g.r
+	type ptx struct {
+		payload []byte
+		hash    []byte
+	}
+	var pool []ptx
+	for i := 0; i < 3; i++ {
+		p := txPayload(g.nextTx(), r.Intn(30), 1+r.Intn(2))
+		pool = append(pool, ptx{p, sha256d(p)})
+	}
+	for i := 0; i < 2; i++ { // announced, never delivered
+		h := make([]byte, 32)
+		binary.LittleEndian.PutUint32(h, g.nextTx())
+		h[31] = 0x99
+		pool = append(pool, ptx{nil, h})
+	}
+	for i := 0; i < n; i++ {
+		switch r.Pick(45, 25, 10, 20) {
+		case 0:
+			cnt := 1 + r.Intn(3)
+			p := varint(uint64(cnt))
+			for k := 0; k < cnt; k++ {
+				p = append(p, le32(1)...)
+				p = append(p, pool[r.Intn(len(pool))].hash...)
+			}
+			g.emit(msgOp("inv", p))
+		case 1:
+			g.emit("wait ms=90")
+		case 2:
+			g.emit("polltx")
+		case 3:
+			t := pool[r.Intn(3)]
+			if r.Chance(50) {
+				g.emit(msgOp("tx", t.payload))
+			} else {
+				g.emit(extOp("tx", t.payload))
+			}
+		}
+	}
+}
+
 func (g *gctx) handshakeAndVerify(extraHeaders int) {
 	g.version()
 	g.verack()
@@ -487,6 +532,14 @@ func (g *gctx) handshakeAndVerify(extraHeaders int) {
 
 func genC14(g *gctx) {
 	r := g.r
+	if r.Chance(8) {
+		g.emit(fmt.Sprintf("init verifyonly=0 tx=1 hh=%d txto=40", b2i(r.Chance(50))))
+		g.handshakeAndVerify(r.Intn(2))
+		g.txTimeoutSteps(4 + r.Intn(8))
+		g.emit(fmt.Sprintf("ping n=%d", 2000000+r.Intn(1000000)))
+		g.emit("close")
+		return
+	}
 	g.emit(fmt.Sprintf("init verifyonly=0 tx=%d hh=%d", b2i(r.Chance(75)), b2i(r.Chance(50))))
 	g.handshakeAndVerify(r.Intn(3))
 	n := 1 + r.Intn(40)
@@ -635,6 +688,18 @@ func (g *gctx) hostile(stage int) {
 
 func genC15(g *gctx) {
 	r := g.r
+	if r.Chance(12) {
+		// time-dependent handler paths (tx request timeout), then one hostile item
+		g.emit(fmt.Sprintf("init verifyonly=0 tx=1 hh=%d txto=40", b2i(r.Chance(50))))
+		g.handshakeAndVerify(r.Intn(2))
+		g.txTimeoutSteps(4 + r.Intn(8))
+		if r.Chance(40) {
+			g.hostile(2)
+		}
+		g.emit(fmt.Sprintf("ping n=%d", 3000000+r.Intn(1000000)))
+		g.emit("close")
+		return
+	}
 	stage := r.Pick(25, 25, 50)
 	g.emit(fmt.Sprintf("init verifyonly=0 tx=%d hh=%d", b2i(r.Chance(80)), b2i(r.Chance(50))))
 	if stage >= 1 {
